@@ -385,9 +385,9 @@ static void list_units(const std::string& tier0)
             snprintf(b,sizeof b,"profile=c12,kind=%s,shape=%s,depth=%d,cat=%d,cfgs=%s", k, sh, th?3:2, th?8:6, th?"pols36":"pols36"); emit(b, th?16:4);
         }
         snprintf(b,sizeof b,"profile=c12,kind=S:MTb:F,shape=S4,depth=%d,cat=4,rel=I,cfgs=pols36", th?3:2); emit(b, th?16:4);
-        // quick tier: depth 3 over a three-function alphabet for one relation kind with edge values (node memory of three sizes is
+        // quick tier: depth 3 over a four-function alphabet for one relation kind with edge values (node memory of three sizes is
         // requested and recycled around a FRAG symbol; this is the history shape that exposed seed C12-1 in the thorough tier)
-        if (!th) { snprintf(b,sizeof b,"profile=c12,kind=R:EVtr:F,shape=S3,depth=3,cat=3,cfgs=pols36"); emit(b, 8); }
+        if (!th) { snprintf(b,sizeof b,"profile=c12,kind=R:EVtr:F,shape=S3,depth=3,cat=4,cfgs=pols36"); emit(b, 12); }
     }
 }
 
